@@ -1,0 +1,1283 @@
+//! `node` area adapter: REAL nodes built with the public API only.
+//!
+//! `ConfigBuilder::new()…build()` + `Litep2p::new(config)` with the TCP transport on loopback
+//! (port 0), up to three nodes in one process on one multi-thread tokio runtime, user protocols
+//! (notification, request-response, `UserProtocol`) and the libp2p protocols of the baseline build
+//! (ping, identify, kademlia, bitswap).
+//!
+//! Two kinds of observations behind one line protocol:
+//!
+//! * `node <i> <config…>` — builds node `i` and prints the ACTUAL registration record: what the
+//!   transport manager holds for every protocol (codec, keep-alive flag, fallback names), what
+//!   every `TransportService` was constructed with (keep-alive timeout of its tracker, flag,
+//!   fallback names — recorded by `TransportService::new`, see `crate::verif::note_service`), the
+//!   installed connection limits, transports, known addresses and listen addresses. Deterministic.
+//! * dynamic operations (`dial`, `dialaddr`, `open_notif`, `notify`, `request`, `respond`,
+//!   `close`, `wait`, `settle`, `await`, `events`, …) — real sockets and real time; every handle
+//!   is pumped by a task into a per-node ledger that `events <i>` prints per source, in order
+//!   within a source. Peers are printed by node index, addresses by (node, listen index), request
+//!   ids by order of appearance; durations are printed in milliseconds (`@<ms>`), never compared
+//!   for equality.
+//!
+//! The adapter is a child of `transport::manager` so that it can read the manager's private
+//! fields; it never writes them.
+
+use crate::{
+    codec::ProtocolCodec,
+    config::ConfigBuilder,
+    crypto::ed25519::Keypair,
+    executor::Executor,
+    protocol::{
+        libp2p::{bitswap, identify, kademlia, ping},
+        notification::{self, NotificationEvent, NotificationHandle, ValidationResult},
+        request_response::{
+            self, DialOptions, RequestResponseEvent, RequestResponseHandle,
+        },
+        Direction, SubstreamKeepAlive, TransportEvent, TransportService, UserProtocol,
+    },
+    substream::Substream,
+    transport::{
+        manager::limits::ConnectionLimitsConfig, tcp::config::Config as TcpConfig, Endpoint,
+    },
+    types::{protocol::ProtocolName, RequestId},
+    verif::VerifBox,
+    Litep2p, Litep2pEvent, PeerId,
+};
+
+use futures::{Stream, StreamExt};
+use multiaddr::{Multiaddr, Protocol};
+use tokio::sync::{
+    mpsc::{unbounded_channel, UnboundedReceiver, UnboundedSender},
+    oneshot,
+};
+
+use std::{
+    collections::{BTreeMap, HashMap},
+    future::Future,
+    pin::Pin,
+    sync::{
+        atomic::{AtomicUsize, Ordering},
+        Arc, Mutex,
+    },
+    time::{Duration, Instant},
+};
+
+const MAX_NODES: usize = 3;
+const REPLY_TIMEOUT: Duration = Duration::from_secs(3);
+
+// ---------------------------------------------------------------------------------------------
+// shared state
+// ---------------------------------------------------------------------------------------------
+
+struct Entry {
+    node: usize,
+    src: String,
+    text: String,
+}
+
+#[derive(Default)]
+struct Shared {
+    /// Peer ids by node index.
+    peers: Mutex<Vec<PeerId>>,
+    /// Listen addresses (without `/p2p`) by node index, in the order `Litep2p` reports them.
+    listen: Mutex<Vec<Vec<Multiaddr>>>,
+    /// Events not yet printed.
+    ledger: Mutex<Vec<Entry>>,
+    /// When the last (non-periodic) event arrived.
+    last: Mutex<Option<Instant>>,
+}
+
+impl Shared {
+    fn push(&self, node: usize, src: &str, text: String, periodic: bool) {
+        self.ledger.lock().expect("ledger").push(Entry {
+            node,
+            src: src.to_string(),
+            text,
+        });
+        if !periodic {
+            *self.last.lock().expect("last") = Some(Instant::now());
+        }
+    }
+
+    fn peer_ix(&self, peer: &PeerId) -> String {
+        match self.peers.lock().expect("peers").iter().position(|p| p == peer) {
+            Some(i) => i.to_string(),
+            None => "?".to_string(),
+        }
+    }
+
+    /// `<node>.<listen index>` / `x` (closed port) / `pub<k>` / `q` (quic) / `?`, then `/p<j>` for a
+    /// trailing peer id.
+    fn canon_addr(&self, address: &Multiaddr) -> String {
+        let mut base = Multiaddr::empty();
+        let mut p2p = None;
+        let mut ip4 = None;
+        let mut port = None;
+        let mut udp = false;
+        for component in address.iter() {
+            match component {
+                Protocol::P2p(hash) => {
+                    p2p = Some(match PeerId::from_multihash(hash) {
+                        Ok(peer) => self.peer_ix(&peer),
+                        Err(_) => "?".to_string(),
+                    });
+                }
+                other => {
+                    match &other {
+                        Protocol::Ip4(ip) => ip4 = Some(*ip),
+                        Protocol::Tcp(p) => port = Some(*p),
+                        Protocol::Udp(_) => udp = true,
+                        _ => {}
+                    }
+                    base = base.with(other);
+                }
+            }
+        }
+        let mut name = "?".to_string();
+        for (n, addresses) in self.listen.lock().expect("listen").iter().enumerate() {
+            if let Some(k) = addresses.iter().position(|a| *a == base) {
+                name = format!("{n}.{k}");
+            }
+        }
+        if name == "?" {
+            if udp {
+                name = "q".to_string();
+            } else if let (Some(ip), Some(p)) = (ip4, port) {
+                let o = ip.octets();
+                if o[0] == 10 && p == 30333 {
+                    name = format!("pub{}", o[3]);
+                } else if o[0] == 127 && p == 1 {
+                    name = "x".to_string();
+                }
+            }
+        }
+        match p2p {
+            Some(p) => format!("{name}/p{p}"),
+            None => name,
+        }
+    }
+}
+
+fn hexd(b: &[u8]) -> String {
+    crate::verif::hexd(b)
+}
+
+fn first_idents(debug: &str, n: usize) -> String {
+    let ids: Vec<&str> = debug
+        .split(|c: char| !c.is_ascii_alphanumeric() && c != '_')
+        .filter(|s| !s.is_empty() && s.chars().next().map(|c| c.is_ascii_alphabetic()).unwrap_or(false))
+        .take(n)
+        .collect();
+    ids.join(".")
+}
+
+/// Small word for an error value (variant names only).
+fn err_word<E: std::fmt::Debug>(e: &E) -> String {
+    let s = format!("{e:?}");
+    let first = first_idents(&s, 1);
+    match first.as_str() {
+        "AddressError" | "DialError" | "NegotiationError" | "SubstreamError" | "Rejected" | "TransportNotSupported" =>
+            first_idents(&s, 2),
+        _ => first,
+    }
+}
+
+fn codec_str(codec: &ProtocolCodec) -> String {
+    match codec {
+        ProtocolCodec::Identity(n) => format!("id{n}"),
+        ProtocolCodec::UnsignedVarint(Some(n)) => format!("uv{n}"),
+        ProtocolCodec::UnsignedVarint(None) => "uv-".to_string(),
+        ProtocolCodec::Unspecified => "un".to_string(),
+    }
+}
+
+fn parse_codec(s: &str) -> Option<ProtocolCodec> {
+    if s == "un" {
+        return Some(ProtocolCodec::Unspecified);
+    }
+    if s == "uv-" {
+        return Some(ProtocolCodec::UnsignedVarint(None));
+    }
+    if let Some(n) = s.strip_prefix("uv") {
+        return n.parse().ok().map(|n| ProtocolCodec::UnsignedVarint(Some(n)));
+    }
+    if let Some(n) = s.strip_prefix("id") {
+        return n.parse().ok().map(ProtocolCodec::Identity);
+    }
+    None
+}
+
+fn names_of(s: &str) -> Vec<ProtocolName> {
+    if s == "-" || s.is_empty() {
+        Vec::new()
+    } else {
+        s.split('+').map(|n| ProtocolName::from(n.to_string())).collect()
+    }
+}
+
+fn join_names<T: std::fmt::Display>(names: &[T]) -> String {
+    if names.is_empty() {
+        "-".to_string()
+    } else {
+        names.iter().map(|n| n.to_string()).collect::<Vec<_>>().join("+")
+    }
+}
+
+// ---------------------------------------------------------------------------------------------
+// pumps
+// ---------------------------------------------------------------------------------------------
+
+enum NodeCmd {
+    Dial(PeerId, oneshot::Sender<String>),
+    DialAddress(Multiaddr, oneshot::Sender<String>),
+    AddKnown(PeerId, Vec<Multiaddr>, oneshot::Sender<String>),
+    PubAddr(Multiaddr, oneshot::Sender<String>),
+    Bandwidth(oneshot::Sender<String>),
+    Listen(oneshot::Sender<String>),
+}
+
+async fn node_task(ix: usize, mut litep2p: Litep2p, mut rx: UnboundedReceiver<NodeCmd>, shared: Arc<Shared>) {
+    let mut conns: HashMap<String, (usize, Instant)> = HashMap::new();
+    let mut next_conn = 0usize;
+    loop {
+        tokio::select! {
+            event = litep2p.next_event() => match event {
+                None => return,
+                Some(Litep2pEvent::ConnectionEstablished { peer, endpoint }) => {
+                    let (role, id) = match &endpoint {
+                        Endpoint::Dialer { connection_id, .. } => ("d", format!("{connection_id:?}")),
+                        Endpoint::Listener { connection_id, .. } => ("l", format!("{connection_id:?}")),
+                    };
+                    let n = next_conn;
+                    next_conn += 1;
+                    conns.insert(id, (n, Instant::now()));
+                    shared.push(ix, "app", format!("E{}{role}#{n}", shared.peer_ix(&peer)), false);
+                }
+                Some(Litep2pEvent::ConnectionClosed { peer, connection_id }) => {
+                    let text = match conns.get(&format!("{connection_id:?}")) {
+                        Some((n, at)) => format!("C{}#{n}@{}", shared.peer_ix(&peer), at.elapsed().as_millis()),
+                        None => format!("C{}#?@0", shared.peer_ix(&peer)),
+                    };
+                    shared.push(ix, "app", text, false);
+                }
+                Some(Litep2pEvent::DialFailure { address, error }) => {
+                    shared.push(ix, "app", format!("DF:{}:{}", shared.canon_addr(&address), err_word(&error)), false);
+                }
+                Some(Litep2pEvent::ListDialFailures { errors }) => {
+                    let mut parts: Vec<String> = errors
+                        .iter()
+                        .map(|(a, e)| format!("{}:{}", shared.canon_addr(a), err_word(e)))
+                        .collect();
+                    parts.sort();
+                    shared.push(ix, "app", format!("LDF:{}", parts.join("+")), false);
+                }
+            },
+            command = rx.recv() => match command {
+                None => return,
+                Some(NodeCmd::Dial(peer, reply)) => {
+                    let r = match litep2p.dial(&peer).await {
+                        Ok(()) => "ok".to_string(),
+                        Err(e) => format!("err:{}", err_word(&e)),
+                    };
+                    let _ = reply.send(r);
+                }
+                Some(NodeCmd::DialAddress(address, reply)) => {
+                    let r = match litep2p.dial_address(address).await {
+                        Ok(()) => "ok".to_string(),
+                        Err(e) => format!("err:{}", err_word(&e)),
+                    };
+                    let _ = reply.send(r);
+                }
+                Some(NodeCmd::AddKnown(peer, addresses, reply)) => {
+                    let n = litep2p.add_known_address(peer, addresses.into_iter());
+                    let _ = reply.send(format!("n={n}"));
+                }
+                Some(NodeCmd::PubAddr(address, reply)) => {
+                    let r = match litep2p.public_addresses().add_address(address) {
+                        Ok(true) => "added".to_string(),
+                        Ok(false) => "dup".to_string(),
+                        Err(e) => format!("err:{}", err_word(&e)),
+                    };
+                    let mut all: Vec<String> =
+                        litep2p.public_addresses().get_addresses().iter().map(|a| shared.canon_addr(a)).collect();
+                    all.sort();
+                    let _ = reply.send(format!("{r} pub=[{}]", all.join(",")));
+                }
+                Some(NodeCmd::Bandwidth(reply)) => {
+                    let sink = litep2p.bandwidth_sink();
+                    let f = |n: usize| if n == 0 { "0" } else { "+" };
+                    let _ = reply.send(format!("in={} out={}", f(sink.inbound()), f(sink.outbound())));
+                }
+                Some(NodeCmd::Listen(reply)) => {
+                    let all: Vec<String> = litep2p.listen_addresses().map(|a| shared.canon_addr(a)).collect();
+                    let _ = reply.send(format!("listen=[{}]", all.join(",")));
+                }
+            },
+        }
+    }
+}
+
+enum NotifCmd {
+    Open(PeerId, oneshot::Sender<String>),
+    Close(PeerId, oneshot::Sender<String>),
+    Send(PeerId, Vec<u8>, oneshot::Sender<String>),
+}
+
+async fn notif_task(
+    ix: usize,
+    src: String,
+    mut handle: NotificationHandle,
+    manual: Option<bool>,
+    mut rx: UnboundedReceiver<NotifCmd>,
+    shared: Arc<Shared>,
+) {
+    loop {
+        tokio::select! {
+            event = handle.next() => match event {
+                None => return,
+                Some(NotificationEvent::ValidateSubstream { peer, fallback, handshake, .. }) => {
+                    let fb = fallback.map(|f| f.to_string()).unwrap_or_else(|| "-".to_string());
+                    shared.push(ix, &src, format!("V{}:{}:{fb}", shared.peer_ix(&peer), hexd(&handshake)), false);
+                    let accept = manual.unwrap_or(true);
+                    handle.send_validation_result(peer, if accept { ValidationResult::Accept } else { ValidationResult::Reject });
+                }
+                Some(NotificationEvent::NotificationStreamOpened { peer, fallback, direction, handshake, .. }) => {
+                    let fb = fallback.map(|f| f.to_string()).unwrap_or_else(|| "-".to_string());
+                    let d = match direction { notification::Direction::Inbound => "i", notification::Direction::Outbound => "o" };
+                    shared.push(ix, &src, format!("O{}:{d}:{}:{fb}", shared.peer_ix(&peer), hexd(&handshake)), false);
+                }
+                Some(NotificationEvent::NotificationStreamClosed { peer }) => {
+                    shared.push(ix, &src, format!("C{}", shared.peer_ix(&peer)), false);
+                }
+                Some(NotificationEvent::NotificationStreamOpenFailure { peer, error }) => {
+                    shared.push(ix, &src, format!("F{}:{}", shared.peer_ix(&peer), err_word(&error)), false);
+                }
+                Some(NotificationEvent::NotificationReceived { peer, notification }) => {
+                    let tag = notification.first().copied().unwrap_or(0);
+                    shared.push(ix, &src, format!("N{}:{}:{tag}", shared.peer_ix(&peer), notification.len()), false);
+                }
+            },
+            command = rx.recv() => match command {
+                None => return,
+                Some(NotifCmd::Open(peer, reply)) => {
+                    let r = match handle.open_substream(peer).await {
+                        Ok(()) => "ok".to_string(),
+                        Err(e) => format!("err:{}", err_word(&e)),
+                    };
+                    let _ = reply.send(r);
+                }
+                Some(NotifCmd::Close(peer, reply)) => {
+                    handle.close_substream(peer).await;
+                    let _ = reply.send("ok".to_string());
+                }
+                Some(NotifCmd::Send(peer, bytes, reply)) => {
+                    let r = match handle.notification_sink(peer) {
+                        None => "nosink".to_string(),
+                        Some(_) => match handle.send_sync_notification(peer, bytes) {
+                            Ok(()) => "ok".to_string(),
+                            Err(e) => format!("err:{}", err_word(&e)),
+                        },
+                    };
+                    let _ = reply.send(r);
+                }
+            },
+        }
+    }
+}
+
+enum RrCmd {
+    Request {
+        peer: PeerId,
+        payload: Vec<u8>,
+        fallback: Option<(ProtocolName, Vec<u8>)>,
+        dial: bool,
+        reply: oneshot::Sender<String>,
+    },
+    Respond(usize, Option<Vec<u8>>, oneshot::Sender<String>),
+    Cancel(usize, oneshot::Sender<String>),
+}
+
+async fn rr_task(
+    ix: usize,
+    src: String,
+    mut handle: RequestResponseHandle,
+    mut rx: UnboundedReceiver<RrCmd>,
+    shared: Arc<Shared>,
+) {
+    let mut outbound: Vec<RequestId> = Vec::new();
+    let mut inbound: Vec<Option<RequestId>> = Vec::new();
+    let out_ix = |outbound: &Vec<RequestId>, id: &RequestId| match outbound.iter().position(|r| r == id) {
+        Some(k) => k.to_string(),
+        None => "?".to_string(),
+    };
+    loop {
+        tokio::select! {
+            event = handle.next() => match event {
+                None => return,
+                Some(RequestResponseEvent::RequestReceived { peer, fallback, request_id, request }) => {
+                    let k = inbound.len();
+                    inbound.push(Some(request_id));
+                    let fb = fallback.map(|f| f.to_string()).unwrap_or_else(|| "-".to_string());
+                    let tag = request.first().copied().unwrap_or(0);
+                    shared.push(ix, &src, format!("Q{}:i{k}:{}:{tag}:{fb}", shared.peer_ix(&peer), request.len()), false);
+                }
+                Some(RequestResponseEvent::ResponseReceived { peer, request_id, fallback, response }) => {
+                    let fb = fallback.map(|f| f.to_string()).unwrap_or_else(|| "-".to_string());
+                    let tag = response.first().copied().unwrap_or(0);
+                    shared.push(ix, &src, format!("R{}:q{}:{}:{tag}:{fb}", shared.peer_ix(&peer), out_ix(&outbound, &request_id), response.len()), false);
+                }
+                Some(RequestResponseEvent::RequestFailed { peer, request_id, error }) => {
+                    shared.push(ix, &src, format!("F{}:q{}:{}", shared.peer_ix(&peer), out_ix(&outbound, &request_id), err_word(&error)), false);
+                }
+            },
+            command = rx.recv() => match command {
+                None => return,
+                Some(RrCmd::Request { peer, payload, fallback, dial, reply }) => {
+                    let options = if dial { DialOptions::Dial } else { DialOptions::Reject };
+                    let result = match fallback {
+                        None => handle.send_request(peer, payload, options).await,
+                        Some(fallback) => handle.send_request_with_fallback(peer, payload, fallback, options).await,
+                    };
+                    let r = match result {
+                        Ok(id) => {
+                            outbound.push(id);
+                            format!("ok q{}", outbound.len() - 1)
+                        }
+                        Err(e) => format!("err:{}", err_word(&e)),
+                    };
+                    let _ = reply.send(r);
+                }
+                Some(RrCmd::Respond(k, payload, reply)) => {
+                    let r = match inbound.get_mut(k).and_then(|slot| slot.take()) {
+                        None => "none".to_string(),
+                        Some(id) => {
+                            match payload {
+                                Some(bytes) => handle.send_response(id, bytes),
+                                None => handle.reject_request(id),
+                            }
+                            "ok".to_string()
+                        }
+                    };
+                    let _ = reply.send(r);
+                }
+                Some(RrCmd::Cancel(k, reply)) => {
+                    let r = match outbound.get(k) {
+                        None => "none".to_string(),
+                        Some(id) => {
+                            handle.cancel_request(*id).await;
+                            "ok".to_string()
+                        }
+                    };
+                    let _ = reply.send(r);
+                }
+            },
+        }
+    }
+}
+
+enum UserCmd {
+    Open(PeerId, oneshot::Sender<String>),
+    ForceClose(PeerId, oneshot::Sender<String>),
+    DropSubstreams(oneshot::Sender<String>),
+}
+
+struct UserProto {
+    ix: usize,
+    name: ProtocolName,
+    codec: ProtocolCodec,
+    rx: UnboundedReceiver<UserCmd>,
+    shared: Arc<Shared>,
+}
+
+#[async_trait::async_trait]
+impl UserProtocol for UserProto {
+    fn protocol(&self) -> ProtocolName {
+        self.name.clone()
+    }
+
+    fn codec(&self) -> ProtocolCodec {
+        self.codec.clone()
+    }
+
+    async fn run(mut self: Box<Self>, mut service: TransportService) -> crate::Result<()> {
+        let src = format!("u:{}", self.name);
+        let ix = self.ix;
+        let shared = Arc::clone(&self.shared);
+        let mut substreams: Vec<Substream> = Vec::new();
+        loop {
+            tokio::select! {
+                event = service.next() => match event {
+                    None => return Ok(()),
+                    Some(TransportEvent::ConnectionEstablished { peer, .. }) =>
+                        shared.push(ix, &src, format!("E{}", shared.peer_ix(&peer)), false),
+                    Some(TransportEvent::ConnectionClosed { peer }) =>
+                        shared.push(ix, &src, format!("C{}", shared.peer_ix(&peer)), false),
+                    Some(TransportEvent::SubstreamOpened { peer, protocol, fallback, direction, substream }) => {
+                        let d = match direction { Direction::Inbound => "i", Direction::Outbound(_) => "o" };
+                        let fb = fallback.map(|f| f.to_string()).unwrap_or_else(|| "-".to_string());
+                        substreams.push(substream);
+                        shared.push(ix, &src, format!("O{}:{d}:{protocol}:{fb}", shared.peer_ix(&peer)), false);
+                    }
+                    Some(TransportEvent::SubstreamOpenFailure { error, .. }) =>
+                        shared.push(ix, &src, format!("X:{}", err_word(&error)), false),
+                    Some(TransportEvent::DialFailure { peer, .. }) =>
+                        shared.push(ix, &src, format!("D{}", shared.peer_ix(&peer)), false),
+                },
+                command = self.rx.recv() => match command {
+                    None => return Ok(()),
+                    Some(UserCmd::Open(peer, reply)) => {
+                        let r = match service.open_substream(peer) {
+                            Ok(_) => "ok".to_string(),
+                            Err(e) => format!("err:{}", err_word(&e)),
+                        };
+                        let _ = reply.send(r);
+                    }
+                    Some(UserCmd::ForceClose(peer, reply)) => {
+                        let r = match service.force_close(peer) {
+                            Ok(()) => "ok".to_string(),
+                            Err(e) => format!("err:{}", err_word(&e)),
+                        };
+                        let _ = reply.send(r);
+                    }
+                    Some(UserCmd::DropSubstreams(reply)) => {
+                        let n = substreams.len();
+                        substreams.clear();
+                        let _ = reply.send(format!("dropped={n}"));
+                    }
+                },
+            }
+        }
+    }
+}
+
+async fn ping_task(ix: usize, mut stream: Box<dyn Stream<Item = ping::PingEvent> + Send + Unpin>, shared: Arc<Shared>) {
+    while let Some(ping::PingEvent::Ping { peer, .. }) = stream.next().await {
+        shared.push(ix, "ping", format!("P{}", shared.peer_ix(&peer)), true);
+    }
+}
+
+async fn identify_task(
+    ix: usize,
+    mut stream: Box<dyn Stream<Item = identify::IdentifyEvent> + Send + Unpin>,
+    shared: Arc<Shared>,
+) {
+    while let Some(identify::IdentifyEvent::PeerIdentified { peer, supported_protocols, listen_addresses, .. }) =
+        stream.next().await
+    {
+        let mut protocols: Vec<String> = supported_protocols.iter().map(|p| p.to_string()).collect();
+        protocols.sort();
+        let mut listen: Vec<String> = listen_addresses.iter().map(|a| shared.canon_addr(a)).collect();
+        listen.sort();
+        listen.dedup();
+        shared.push(
+            ix,
+            "id",
+            format!("I{}|{}|{}", shared.peer_ix(&peer), join_names(&protocols), join_names(&listen)),
+            false,
+        );
+    }
+}
+
+/// Executor handed to `ConfigBuilder::with_executor`: counts what it is asked to run.
+struct CountingExecutor {
+    spawned: AtomicUsize,
+}
+
+impl Executor for CountingExecutor {
+    fn run(&self, future: Pin<Box<dyn Future<Output = ()> + Send>>) {
+        self.spawned.fetch_add(1, Ordering::SeqCst);
+        tokio::spawn(future);
+    }
+
+    fn run_with_name(&self, _: &'static str, future: Pin<Box<dyn Future<Output = ()> + Send>>) {
+        self.spawned.fetch_add(1, Ordering::SeqCst);
+        tokio::spawn(future);
+    }
+}
+
+// ---------------------------------------------------------------------------------------------
+// the box
+// ---------------------------------------------------------------------------------------------
+
+struct Node {
+    cmd: UnboundedSender<NodeCmd>,
+    notif: HashMap<String, UnboundedSender<NotifCmd>>,
+    rr: HashMap<String, UnboundedSender<RrCmd>>,
+    user: BTreeMap<String, UnboundedSender<UserCmd>>,
+    /// Handles that must stay alive (kademlia, bitswap).
+    _keep: Vec<Box<dyn std::any::Any + Send>>,
+}
+
+pub struct NodeBox {
+    rt: Option<tokio::runtime::Runtime>,
+    shared: Arc<Shared>,
+    /// `None` = construction failed (the index is taken all the same).
+    nodes: Vec<Option<Node>>,
+}
+
+impl Drop for NodeBox {
+    fn drop(&mut self) {
+        self.nodes.clear();
+        if let Some(rt) = self.rt.take() {
+            rt.shutdown_background();
+        }
+    }
+}
+
+fn listen_spec(s: &str) -> Option<Vec<Multiaddr>> {
+    if s == "0" {
+        return Some(Vec::new());
+    }
+    let mut res = Vec::new();
+    for c in s.chars() {
+        let d = c.to_digit(10)?;
+        if !(1..=4).contains(&d) {
+            return None;
+        }
+        res.push(format!("/ip4/127.0.0.{d}/tcp/0").parse().expect("addr"));
+    }
+    Some(res)
+}
+
+impl NodeBox {
+    pub fn new() -> Self {
+        Self {
+            rt: Some(
+                tokio::runtime::Builder::new_multi_thread()
+                    .worker_threads(2)
+                    .enable_all()
+                    .build()
+                    .expect("runtime"),
+            ),
+            shared: Arc::new(Shared::default()),
+            nodes: Vec::new(),
+        }
+    }
+
+    fn rt(&self) -> &tokio::runtime::Runtime {
+        self.rt.as_ref().expect("runtime")
+    }
+
+    fn peer_of(&self, j: usize) -> Option<PeerId> {
+        self.shared.peers.lock().expect("peers").get(j).copied()
+    }
+
+    /// Address of kind `l<k>` / `n<k>` / `w<k>` / `x` / `q` for node `j`.
+    fn address(&self, j: usize, kind: &str) -> Option<Multiaddr> {
+        let peer = self.peer_of(j)?;
+        let listen = self.shared.listen.lock().expect("listen").get(j).cloned()?;
+        let nth = |s: &str| s.parse::<usize>().ok().and_then(|k| listen.get(k).cloned());
+        if kind == "x" {
+            return Some("/ip4/127.0.0.1/tcp/1".parse::<Multiaddr>().expect("addr").with(Protocol::P2p(peer.into())));
+        }
+        if kind == "q" {
+            return Some(
+                "/ip4/127.0.0.1/udp/1/quic-v1".parse::<Multiaddr>().expect("addr").with(Protocol::P2p(peer.into())),
+            );
+        }
+        if let Some(k) = kind.strip_prefix('l') {
+            return nth(k).map(|a| a.with(Protocol::P2p(peer.into())));
+        }
+        if let Some(k) = kind.strip_prefix('n') {
+            return nth(k);
+        }
+        if let Some(k) = kind.strip_prefix('w') {
+            return nth(k).map(|a| a.with(Protocol::P2p(PeerId::random().into())));
+        }
+        None
+    }
+
+    fn op_node(&mut self, args: &[&str]) -> String {
+        let Some(i) = args.first().and_then(|s| s.parse::<usize>().ok()) else {
+            return "bad-op".into();
+        };
+        if i != self.nodes.len() || i >= MAX_NODES {
+            return "bad-op".into();
+        }
+        let kv = crate::verif::kv(&args[1..]);
+        if args[1..].iter().any(|a| !a.contains('=')) {
+            return "bad-op".into();
+        }
+        let shared = Arc::clone(&self.shared);
+        let keypair = Keypair::generate();
+        let expected_peer = PeerId::from_public_key(&crate::crypto::PublicKey::Ed25519(keypair.public()));
+        let mut builder = ConfigBuilder::new().with_keypair(keypair);
+
+        // ---- parse everything first: a malformed line must not build half a node
+        let ka = match kv.get("ka") {
+            None => None,
+            Some(s) => match s.parse::<u64>() {
+                Ok(ms) => Some(ms),
+                Err(_) => return "bad-op".into(),
+            },
+        };
+        let lim = match kv.get("lim") {
+            None => None,
+            Some(s) => {
+                let Some((a, b)) = s.split_once('/') else { return "bad-op".into() };
+                let p = |x: &str| if x == "-" { Some(None) } else { x.parse::<usize>().ok().map(Some) };
+                match (p(a), p(b)) {
+                    (Some(a), Some(b)) => Some((a, b)),
+                    _ => return "bad-op".into(),
+                }
+            }
+        };
+        let tcp = kv.get("tcp").map(|s| *s != "0").unwrap_or(true);
+        let Some(listen) = listen_spec(kv.get("listen").copied().unwrap_or("1")) else {
+            return "bad-op".into();
+        };
+        struct NotifSpec { name: String, max: usize, hs: Vec<u8>, fb: Vec<ProtocolName>, mode: char }
+        struct RrSpec { name: String, max: usize, timeout: u64, fb: Vec<ProtocolName>, maxin: Option<usize> }
+        let mut notifs = Vec::new();
+        if let Some(s) = kv.get("notif") {
+            for part in s.split(',') {
+                let f: Vec<&str> = part.split(':').collect();
+                if f.len() != 5 || f[0].is_empty() {
+                    return "bad-op".into();
+                }
+                let (Ok(max), Some(mode)) = (f[1].parse::<usize>(), f[4].chars().next()) else {
+                    return "bad-op".into();
+                };
+                if !"ayn".contains(mode) || f[4].len() != 1 || (f[2] != "-" && (f[2].len() % 2 != 0 || !f[2].chars().all(|c| c.is_ascii_hexdigit()))) {
+                    return "bad-op".into();
+                }
+                let hs = if f[2] == "-" { Vec::new() } else { crate::verif::unhex(f[2]) };
+                notifs.push(NotifSpec { name: f[0].to_string(), max, hs, fb: names_of(f[3]), mode });
+            }
+        }
+        let mut rrs = Vec::new();
+        if let Some(s) = kv.get("rr") {
+            for part in s.split(',') {
+                let f: Vec<&str> = part.split(':').collect();
+                if f.len() != 5 || f[0].is_empty() {
+                    return "bad-op".into();
+                }
+                let (Ok(max), Ok(timeout)) = (f[1].parse::<usize>(), f[2].parse::<u64>()) else {
+                    return "bad-op".into();
+                };
+                let maxin = if f[4] == "-" { None } else {
+                    match f[4].parse::<usize>() { Ok(n) => Some(n), Err(_) => return "bad-op".into() }
+                };
+                rrs.push(RrSpec { name: f[0].to_string(), max, timeout, fb: names_of(f[3]), maxin });
+            }
+        }
+        let mut users = Vec::new();
+        if let Some(s) = kv.get("user") {
+            for part in s.split(',') {
+                let Some((name, codec)) = part.split_once(':') else { return "bad-op".into() };
+                let Some(codec) = parse_codec(codec) else { return "bad-op".into() };
+                if name.is_empty() {
+                    return "bad-op".into();
+                }
+                users.push((name.to_string(), codec));
+            }
+        }
+        let mut kads = Vec::new();
+        if let Some(s) = kv.get("kad") {
+            for part in s.split(',') {
+                let Some((names, max)) = part.split_once(':') else { return "bad-op".into() };
+                let max = if max == "-" { None } else {
+                    match max.parse::<usize>() { Ok(n) => Some(n), Err(_) => return "bad-op".into() }
+                };
+                kads.push((if names == "d" { Vec::new() } else { names_of(names) }, max));
+            }
+        }
+        let ping_ms = match kv.get("ping") {
+            None | Some(&"0") => None,
+            Some(s) => match s.parse::<u64>() { Ok(ms) => Some(ms), Err(_) => return "bad-op".into() },
+        };
+        let with_identify = kv.get("identify").map(|s| *s == "1").unwrap_or(false);
+        let with_bitswap = kv.get("bitswap").map(|s| *s == "1").unwrap_or(false);
+        let mut known: Vec<(PeerId, Vec<Multiaddr>)> = Vec::new();
+        if let Some(s) = kv.get("known") {
+            for part in s.split(',') {
+                let Some((j, kinds)) = part.split_once(':') else { return "bad-op".into() };
+                let Some(peer) = j.parse::<usize>().ok().and_then(|j| self.peer_of(j)) else { return "bad-op".into() };
+                let j: usize = j.parse().expect("checked");
+                let mut addresses = Vec::new();
+                for kind in kinds.split('+') {
+                    match self.address(j, kind) {
+                        Some(a) => addresses.push(a),
+                        None => return "bad-op".into(),
+                    }
+                }
+                known.push((peer, addresses));
+            }
+        }
+        let custom_exec = kv.get("exec").map(|s| *s == "custom").unwrap_or(false);
+
+        // ---- build the configuration with the public builder
+        let _guard = self.rt().enter();
+        if tcp {
+            builder = builder.with_tcp(TcpConfig { listen_addresses: listen, ..Default::default() });
+        }
+        if let Some(ms) = ka {
+            builder = builder.with_keep_alive_timeout(Duration::from_millis(ms));
+        }
+        if let Some((a, b)) = lim {
+            builder = builder.with_connection_limits(
+                ConnectionLimitsConfig::default().max_incoming_connections(a).max_outgoing_connections(b),
+            );
+        }
+        if kv.contains_key("known") {
+            builder = builder.with_known_addresses(known.into_iter());
+        }
+        let executor = Arc::new(CountingExecutor { spawned: AtomicUsize::new(0) });
+        if custom_exec {
+            builder = builder.with_executor(Arc::clone(&executor) as Arc<dyn Executor>);
+        }
+        let mut node = Node {
+            cmd: unbounded_channel().0,
+            notif: HashMap::new(),
+            rr: HashMap::new(),
+            user: BTreeMap::new(),
+            _keep: Vec::new(),
+        };
+        let mut pumps: Vec<Pin<Box<dyn Future<Output = ()> + Send>>> = Vec::new();
+        for spec in notifs {
+            let (config, handle) = notification::ConfigBuilder::new(ProtocolName::from(spec.name.clone()))
+                .with_max_size(spec.max)
+                .with_handshake(spec.hs)
+                .with_fallback_names(spec.fb)
+                .with_auto_accept_inbound(spec.mode == 'a')
+                .with_sync_channel_size(64)
+                .with_async_channel_size(64)
+                .build();
+            builder = builder.with_notification_protocol(config);
+            let (tx, rx) = unbounded_channel();
+            // a later configuration of the same name replaces the earlier one (and its pump)
+            node.notif.insert(spec.name.clone(), tx);
+            let manual = match spec.mode { 'y' => Some(true), 'n' => Some(false), _ => None };
+            pumps.push(Box::pin(notif_task(i, format!("n:{}", spec.name), handle, manual, rx, Arc::clone(&shared))));
+        }
+        for spec in rrs {
+            let mut b = request_response::ConfigBuilder::new(ProtocolName::from(spec.name.clone()))
+                .with_max_size(spec.max)
+                .with_timeout(Duration::from_millis(spec.timeout))
+                .with_fallback_names(spec.fb);
+            if let Some(n) = spec.maxin {
+                b = b.with_max_concurrent_inbound_requests(n);
+            }
+            let (config, handle) = b.build();
+            builder = builder.with_request_response_protocol(config);
+            let (tx, rx) = unbounded_channel();
+            node.rr.insert(spec.name.clone(), tx);
+            pumps.push(Box::pin(rr_task(i, format!("r:{}", spec.name), handle, rx, Arc::clone(&shared))));
+        }
+        for (name, codec) in users {
+            let (tx, rx) = unbounded_channel();
+            node.user.insert(name.clone(), tx);
+            builder = builder.with_user_protocol(Box::new(UserProto {
+                ix: i,
+                name: ProtocolName::from(name),
+                codec,
+                rx,
+                shared: Arc::clone(&shared),
+            }));
+        }
+        if let Some(ms) = ping_ms {
+            let (config, stream) = if ms == 1 {
+                ping::Config::default()
+            } else {
+                ping::ConfigBuilder::new().with_ping_interval(Duration::from_millis(ms)).build()
+            };
+            builder = builder.with_libp2p_ping(config);
+            pumps.push(Box::pin(ping_task(i, stream, Arc::clone(&shared))));
+        }
+        if with_identify {
+            let (config, stream) = identify::Config::new("/verif/1".to_string(), Some("verif".to_string()));
+            builder = builder.with_libp2p_identify(config);
+            pumps.push(Box::pin(identify_task(i, stream, Arc::clone(&shared))));
+        }
+        for (names, max) in kads {
+            let mut b = kademlia::ConfigBuilder::new();
+            if !names.is_empty() {
+                b = b.with_protocol_names(names);
+            }
+            if let Some(n) = max {
+                b = b.with_max_message_size(n);
+            }
+            let (config, handle) = b.build();
+            builder = builder.with_libp2p_kademlia(config);
+            node._keep.push(Box::new(handle));
+        }
+        if with_bitswap {
+            let (config, handle) = bitswap::Config::new();
+            builder = builder.with_libp2p_bitswap(config);
+            node._keep.push(Box::new(handle));
+        }
+
+        // ---- the code under test
+        let _ = crate::verif::take_services();
+        self.nodes.push(None);
+        self.shared.peers.lock().expect("peers").push(expected_peer);
+        self.shared.listen.lock().expect("listen").push(Vec::new());
+        let litep2p = match Litep2p::new(builder.build()) {
+            Ok(litep2p) => litep2p,
+            Err(e) => {
+                let _ = crate::verif::take_services();
+                return format!("err:{}", err_word(&e));
+            }
+        };
+        let services = crate::verif::take_services();
+
+        // ---- the record
+        let local = *litep2p.local_peer_id();
+        let id = if local == expected_peer { "ok" } else { "bad" };
+        let reported: Vec<Multiaddr> = litep2p.listen_addresses().cloned().collect();
+        {
+            // listen addresses without the peer id, in reported order
+            let mut bases = Vec::new();
+            for address in &reported {
+                let base: Multiaddr = address.iter().filter(|c| !matches!(c, Protocol::P2p(_))).collect();
+                bases.push(base);
+            }
+            self.shared.listen.lock().expect("listen")[i] = bases;
+        }
+        let listen: Vec<String> = reported
+            .iter()
+            .map(|address| {
+                let octet = address.iter().find_map(|c| match c {
+                    Protocol::Ip4(ip) if ip.octets()[0] == 127 => Some(ip.octets()[3]),
+                    _ => None,
+                });
+                let port_ok = address.iter().any(|c| matches!(c, Protocol::Tcp(p) if p != 0));
+                let who = match address.iter().last() {
+                    Some(Protocol::P2p(hash)) => match PeerId::from_multihash(hash) {
+                        Ok(peer) if peer == local => "own",
+                        _ => "other",
+                    },
+                    _ => "none",
+                };
+                match (octet, port_ok) {
+                    (Some(o), true) => format!("{o}:{who}"),
+                    _ => format!("?:{who}"),
+                }
+            })
+            .collect();
+        let manager = &litep2p.transport_manager;
+        let mut mlisten: Vec<String> =
+            manager.listen_addresses.read().iter().map(|a| shared.canon_addr(a)).collect();
+        mlisten.sort();
+        let (lim_in, lim_out) = manager.connection_limits.verif_config();
+        let show = |x: Option<usize>| x.map(|n| n.to_string()).unwrap_or_else(|| "-".to_string());
+        let mut known_out: Vec<String> = Vec::new();
+        for (peer, context) in manager.peers.read().iter() {
+            if context.addresses.addresses.is_empty() {
+                continue;
+            }
+            let mut kinds: Vec<String> =
+                context.addresses.addresses.keys().map(|a| shared.canon_addr(a)).collect();
+            kinds.sort();
+            known_out.push(format!("{}:{}", shared.peer_ix(peer), kinds.join("+")));
+        }
+        known_out.sort();
+        let mut regs: Vec<String> = manager
+            .protocols
+            .iter()
+            .map(|(name, context)| {
+                format!(
+                    "{name}|{}|{}|{}",
+                    codec_str(&context.codec),
+                    if context.keep_alive == SubstreamKeepAlive::Yes { "Y" } else { "N" },
+                    join_names(&context.fallback_names),
+                )
+            })
+            .collect();
+        regs.sort();
+        let mut names: Vec<String> = manager.protocol_names.iter().map(|n| n.to_string()).collect();
+        names.sort();
+        let mut svc: Vec<String> = services
+            .iter()
+            .map(|(peer, name, fallback, timeout, keep_alive)| {
+                format!(
+                    "{name}|{}|{}|{}|{}",
+                    timeout.as_millis(),
+                    if *keep_alive { "Y" } else { "N" },
+                    join_names(fallback),
+                    if *peer == local { "own" } else { "other" },
+                )
+            })
+            .collect();
+        svc.sort();
+        let mut transports: Vec<String> =
+            manager.installed_transports().map(|t| format!("{t:?}").to_lowercase()).collect();
+        transports.sort();
+        let exec = if custom_exec { executor.spawned.load(Ordering::SeqCst).to_string() } else { "-".to_string() };
+        let record = format!(
+            "ok id={id} listen=[{}] mlisten=[{}] lim={}/{} known=[{}] tr=[{}] exec={exec} regs=[{}] names=[{}] svc=[{}]",
+            listen.join(","),
+            mlisten.join(","),
+            show(lim_in),
+            show(lim_out),
+            known_out.join(";"),
+            transports.join(","),
+            regs.join(";"),
+            names.join(","),
+            svc.join(";"),
+        );
+
+        // ---- start the pumps
+        let (tx, rx) = unbounded_channel();
+        node.cmd = tx;
+        let rt = self.rt();
+        rt.spawn(node_task(i, litep2p, rx, Arc::clone(&shared)));
+        for pump in pumps {
+            rt.spawn(pump);
+        }
+        self.nodes[i] = Some(node);
+        record
+    }
+
+    fn node(&self, s: &str) -> Option<(usize, &Node)> {
+        let i = s.parse::<usize>().ok()?;
+        self.nodes.get(i)?.as_ref().map(|n| (i, n))
+    }
+
+    fn ask<C>(&self, tx: &UnboundedSender<C>, make: impl FnOnce(oneshot::Sender<String>) -> C) -> String {
+        let (reply, rx) = oneshot::channel();
+        if tx.send(make(reply)).is_err() {
+            return "gone".into();
+        }
+        self.rt().block_on(async move {
+            match tokio::time::timeout(REPLY_TIMEOUT, rx).await {
+                Ok(Ok(s)) => s,
+                Ok(Err(_)) => "gone".to_string(),
+                Err(_) => "timeout".to_string(),
+            }
+        })
+    }
+
+    fn op_events(&self, i: usize) -> String {
+        let mut per: BTreeMap<String, Vec<String>> = BTreeMap::new();
+        let mut ledger = self.shared.ledger.lock().expect("ledger");
+        let mut rest = Vec::new();
+        for entry in ledger.drain(..) {
+            if entry.node == i {
+                per.entry(entry.src).or_default().push(entry.text);
+            } else {
+                rest.push(entry);
+            }
+        }
+        *ledger = rest;
+        if per.is_empty() {
+            return "-".into();
+        }
+        per.iter()
+            .map(|(src, texts)| {
+                // periodic sources are printed as sets
+                if src == "ping" {
+                    let mut t = texts.clone();
+                    t.sort();
+                    t.dedup();
+                    format!("{src}=[{}]", t.join(","))
+                } else {
+                    format!("{src}=[{}]", texts.join(","))
+                }
+            })
+            .collect::<Vec<_>>()
+            .join(" ")
+    }
+}
+
+impl VerifBox for NodeBox {
+    fn step(&mut self, line: &str) -> String {
+        let t: Vec<&str> = line.split_whitespace().collect();
+        let num = |s: &str| s.parse::<usize>().ok();
+        match t.as_slice() {
+            ["node", rest @ ..] => self.op_node(rest),
+            ["dial", i, j] => match (self.node(i), num(j).and_then(|j| self.peer_of(j))) {
+                (Some((_, n)), Some(peer)) => self.ask(&n.cmd, |r| NodeCmd::Dial(peer, r)),
+                _ => "bad-op".into(),
+            },
+            ["dialaddr", i, j, kind] => match (self.node(i), num(j).and_then(|j| self.address(j, kind))) {
+                (Some((_, n)), Some(address)) => self.ask(&n.cmd, |r| NodeCmd::DialAddress(address, r)),
+                _ => "bad-op".into(),
+            },
+            ["addknown", i, j, kinds] => {
+                let (Some((_, n)), Some(j)) = (self.node(i), num(j)) else { return "bad-op".into() };
+                let Some(peer) = self.peer_of(j) else { return "bad-op".into() };
+                let mut addresses = Vec::new();
+                for kind in kinds.split('+') {
+                    match self.address(j, kind) {
+                        Some(a) => addresses.push(a),
+                        None => return "bad-op".into(),
+                    }
+                }
+                self.ask(&n.cmd, |r| NodeCmd::AddKnown(peer, addresses, r))
+            }
+            ["pubaddr", i, k] => match (self.node(i), k.parse::<u8>()) {
+                (Some((_, n)), Ok(k)) => {
+                    let address: Multiaddr = format!("/ip4/10.0.0.{k}/tcp/30333").parse().expect("addr");
+                    self.ask(&n.cmd, |r| NodeCmd::PubAddr(address, r))
+                }
+                _ => "bad-op".into(),
+            },
+            ["bw", i] => match self.node(i) {
+                Some((_, n)) => self.ask(&n.cmd, NodeCmd::Bandwidth),
+                None => "bad-op".into(),
+            },
+            ["listen", i] => match self.node(i) {
+                Some((_, n)) => self.ask(&n.cmd, NodeCmd::Listen),
+                None => "bad-op".into(),
+            },
+            ["open_notif", i, p, j] | ["close_notif", i, p, j] => {
+                let (Some((_, n)), Some(peer)) = (self.node(i), num(j).and_then(|j| self.peer_of(j))) else {
+                    return "bad-op".into();
+                };
+                match n.notif.get(*p) {
+                    None => "noproto".into(),
+                    Some(tx) if t[0] == "open_notif" => self.ask(tx, |r| NotifCmd::Open(peer, r)),
+                    Some(tx) => self.ask(tx, |r| NotifCmd::Close(peer, r)),
+                }
+            }
+            ["notify", i, p, j, len, tag] => {
+                let (Some((_, n)), Some(peer), Some(len), Ok(tag)) =
+                    (self.node(i), num(j).and_then(|j| self.peer_of(j)), num(len), tag.parse::<u8>())
+                else {
+                    return "bad-op".into();
+                };
+                if len > (1 << 20) {
+                    return "bad-op".into();
+                }
+                match n.notif.get(*p) {
+                    None => "noproto".into(),
+                    Some(tx) => self.ask(tx, |r| NotifCmd::Send(peer, vec![tag; len], r)),
+                }
+            }
+            ["request", i, p, j, len, tag, rest @ ..] => {
+                let (Some((_, n)), Some(peer), Some(len), Ok(tag)) =
+                    (self.node(i), num(j).and_then(|j| self.peer_of(j)), num(len), tag.parse::<u8>())
+                else {
+                    return "bad-op".into();
+                };
+                if len > (1 << 20) {
+                    return "bad-op".into();
+                }
+                let mut dial = false;
+                let mut fallback = None;
+                for a in rest {
+                    if *a == "dial" {
+                        dial = true;
+                    } else if let Some(spec) = a.strip_prefix("fb=") {
+                        let Some((name, flen)) = spec.split_once(':') else { return "bad-op".into() };
+                        let Some(flen) = num(flen).filter(|l| *l <= (1 << 20)) else { return "bad-op".into() };
+                        fallback = Some((ProtocolName::from(name.to_string()), vec![tag; flen]));
+                    } else {
+                        return "bad-op".into();
+                    }
+                }
+                match n.rr.get(*p) {
+                    None => "noproto".into(),
+                    Some(tx) => self.ask(tx, |reply| RrCmd::Request { peer, payload: vec![tag; len], fallback, dial, reply }),
+                }
+            }
+            ["respond", i, p, k, len, tag] => {
+                let (Some((_, n)), Some(k), Some(len), Ok(tag)) = (self.node(i), num(k), num(len), tag.parse::<u8>())
+                else {
+                    return "bad-op".into();
+                };
+                if len > (1 << 20) {
+                    return "bad-op".into();
+                }
+                match n.rr.get(*p) {
+                    None => "noproto".into(),
+                    Some(tx) => self.ask(tx, |r| RrCmd::Respond(k, Some(vec![tag; len]), r)),
+                }
+            }
+            ["reject", i, p, k] => {
+                let (Some((_, n)), Some(k)) = (self.node(i), num(k)) else { return "bad-op".into() };
+                match n.rr.get(*p) {
+                    None => "noproto".into(),
+                    Some(tx) => self.ask(tx, |r| RrCmd::Respond(k, None, r)),
+                }
+            }
+            ["cancel", i, p, k] => {
+                let (Some((_, n)), Some(k)) = (self.node(i), num(k)) else { return "bad-op".into() };
+                match n.rr.get(*p) {
+                    None => "noproto".into(),
+                    Some(tx) => self.ask(tx, |r| RrCmd::Cancel(k, r)),
+                }
+            }
+            ["open_sub", i, p, j] | ["close", i, p, j] => {
+                let (Some((_, n)), Some(peer)) = (self.node(i), num(j).and_then(|j| self.peer_of(j))) else {
+                    return "bad-op".into();
+                };
+                match n.user.get(*p) {
+                    None => "noproto".into(),
+                    Some(tx) if t[0] == "open_sub" => self.ask(tx, |r| UserCmd::Open(peer, r)),
+                    Some(tx) => self.ask(tx, |r| UserCmd::ForceClose(peer, r)),
+                }
+            }
+            ["drop_subs", i, p] => {
+                let Some((_, n)) = self.node(i) else { return "bad-op".into() };
+                match n.user.get(*p) {
+                    None => "noproto".into(),
+                    Some(tx) => self.ask(tx, UserCmd::DropSubstreams),
+                }
+            }
+            ["wait", ms] => match ms.parse::<u64>() {
+                Ok(ms) if ms <= 4000 => {
+                    self.rt().block_on(async move { tokio::time::sleep(Duration::from_millis(ms)).await });
+                    "ok".into()
+                }
+                _ => "bad-op".into(),
+            },
+            ["settle"] | ["settle", _] => {
+                let quiet = match t.get(1).map(|s| s.parse::<u64>()) {
+                    None => 250,
+                    Some(Ok(ms)) if (20..=2000).contains(&ms) => ms,
+                    _ => return "bad-op".into(),
+                };
+                let shared = Arc::clone(&self.shared);
+                self.rt().block_on(async move {
+                    let start = Instant::now();
+                    loop {
+                        tokio::time::sleep(Duration::from_millis(20)).await;
+                        let last = *shared.last.lock().expect("last");
+                        let idle = match last {
+                            Some(at) => at.elapsed(),
+                            None => start.elapsed(),
+                        };
+                        if idle.min(start.elapsed()) >= Duration::from_millis(quiet) || start.elapsed() > Duration::from_secs(4) {
+                            return "ok".to_string();
+                        }
+                    }
+                })
+            }
+            ["await", i, src, prefix, ms] => {
+                let (Some(i), Ok(ms)) = (num(i).filter(|i| *i < self.nodes.len()), ms.parse::<u64>()) else {
+                    return "bad-op".into();
+                };
+                if ms > 4000 {
+                    return "bad-op".into();
+                }
+                let shared = Arc::clone(&self.shared);
+                let (src, prefix) = (src.to_string(), prefix.to_string());
+                self.rt().block_on(async move {
+                    let start = Instant::now();
+                    loop {
+                        let hit = shared
+                            .ledger
+                            .lock()
+                            .expect("ledger")
+                            .iter()
+                            .any(|e| e.node == i && e.src == src && e.text.starts_with(&prefix));
+                        if hit {
+                            return "ok".to_string();
+                        }
+                        if start.elapsed() >= Duration::from_millis(ms) {
+                            return "timeout".to_string();
+                        }
+                        tokio::time::sleep(Duration::from_millis(5)).await;
+                    }
+                })
+            }
+            ["events", i] => match num(i).filter(|i| *i < self.nodes.len()) {
+                Some(i) => self.op_events(i),
+                None => "bad-op".into(),
+            },
+            _ => "bad-op".into(),
+        }
+    }
+}
